@@ -9,10 +9,11 @@ import itertools
 from vlib.table import Dut, Family, standard_check, replay_file
 
 LEVEL = "exploration"
+RAISED = 999999      # output recorded when building / elaborating the wrapper raises
 
 
 def _widths(tier):
-    return range(1, 9) if tier == "thorough" else range(1, 8)
+    return range(1, 11) if tier == "thorough" else range(1, 8)
 
 
 def _bits_for(n):
@@ -37,7 +38,7 @@ def _unary(name, nonzero=False):
         return _wrap(getattr(F, name), [cfg["w"]])
 
     return Family(name, cfgs=lambda tier: [{"w": w} for w in _widths(tier)],
-                  domain=lambda cfg: ([x] for x in range(1 if nonzero else 0, 1 << cfg["w"])), build=build)
+                  domain=lambda cfg: ([x] for x in range(1 if nonzero else 0, 1 << cfg["w"])), build=build, on_raise=RAISED)
 
 
 # ---- cyclic_mask -----------------------------------------------------------------------------------
@@ -119,7 +120,7 @@ def _reduce(name):
 
     return Family(name, cfgs=_reduce_cfgs,
                   domain=lambda cfg: (list(v) for v in itertools.product(*[range(1 << w) for w in cfg["ws"]])),
-                  build=build)
+                  build=build, on_raise=RAISED)
 
 
 # ---- mux / switch_value ----------------------------------------------------------------------------
@@ -243,16 +244,16 @@ for _n in ("popcount", "count_leading_zeros", "count_trailing_zeros", "extract_l
     FAMILIES[_n] = _unary(_n)
 for _n in ("mask_after_first_set_bit", "mask_until_first_set_bit"):
     FAMILIES[_n] = _unary(_n, nonzero=True)
-FAMILIES["cyclic_mask"] = Family("cyclic_mask", cfgs=_cyclic_cfgs, build=_cyclic_build,
+FAMILIES["cyclic_mask"] = Family("cyclic_mask", cfgs=_cyclic_cfgs, build=_cyclic_build, on_raise=RAISED,
                                  domain=lambda cfg: ([s, e] for s in range(cfg["bits"]) for e in range(cfg["bits"])))
-FAMILIES["mod_incr"] = Family("mod_incr", cfgs=_mod_incr_cfgs, build=_mod_incr_build,
+FAMILIES["mod_incr"] = Family("mod_incr", cfgs=_mod_incr_cfgs, build=_mod_incr_build, on_raise=RAISED,
                               domain=lambda cfg: ([s] for s in range(cfg["mod"])))
-FAMILIES["mod_add"] = Family("mod_add", cfgs=_mod_add_cfgs, build=_mod_add_build,
+FAMILIES["mod_add"] = Family("mod_add", cfgs=_mod_add_cfgs, build=_mod_add_build, on_raise=RAISED,
                              domain=lambda cfg: ([s, i] for s in range(cfg["mod"]) for i in range(1, cfg["max_incr"] + 1)))
 for _n in ("sum_value", "or_value", "and_value", "min_value", "max_value"):
     FAMILIES[_n] = _reduce(_n)
-FAMILIES["mux"] = Family("mux", cfgs=_mux_cfgs, build=_mux_build, domain=_mux_domain)
-FAMILIES["switch_value"] = Family("switch_value", cfgs=_switch_cfgs, build=_switch_build, domain=_switch_domain)
+FAMILIES["mux"] = Family("mux", cfgs=_mux_cfgs, build=_mux_build, domain=_mux_domain, on_raise=RAISED)
+FAMILIES["switch_value"] = Family("switch_value", cfgs=_switch_cfgs, build=_switch_build, domain=_switch_domain, on_raise=RAISED)
 
 LAWS = ["TypeOK", "RoundTrip", "PopcountLaw", "CountZerosLaw", "LowestBitLaw", "MaskLaw", "CyclicMaskLaw",
         "ModLaw", "ReduceLaw", "SelectLaw"]
